@@ -171,6 +171,12 @@ def make_exc(kind, label):
         return SystemExit(label)
     if kind == "kbd":
         return KeyboardInterrupt(label)
+    if kind == "callerror":
+        # an ordinary Exception that happens to be uberjob's own error type (e.g. raised by a nested uberjob.run)
+        from uberjob import CallError
+        from uberjob.graph import Call
+
+        return CallError(Call(len))
     raise ValueError(kind)
 
 
